@@ -148,7 +148,7 @@ where
     }
 }
 
-fn generic_fns<'a, T: PartialEq + Debug + num::Zero + RefUnwindSafe + 'a>() -> Vec<Counting<'a, T>> {
+fn generic_fns<'a, T: PartialEq + Debug + num::Zero + RefUnwindSafe + Sync + Send + 'a>() -> Vec<Counting<'a, T>> {
     vec![
         Counting {
             name: "jaccard::compute_probminhash_jaccard",
@@ -173,7 +173,7 @@ fn generic_fns<'a, T: PartialEq + Debug + num::Zero + RefUnwindSafe + 'a>() -> V
     ]
 }
 
-fn float_fns<'a, F: num::Float + Debug + Into<f64> + RefUnwindSafe + 'a>(exp: fn(usize, usize) -> f64) -> Vec<Counting<'a, F>> {
+fn float_fns<'a, F: num::Float + Debug + Into<f64> + RefUnwindSafe + Sync + Send + 'a>(exp: fn(usize, usize) -> f64) -> Vec<Counting<'a, F>> {
     vec![
         Counting {
             name: "superminhasher::compute_superminhash_jaccard",
@@ -246,7 +246,7 @@ fn res_of<R: Into<f64>, E>(r: Result<Result<R, E>, String>) -> Res {
     }
 }
 
-fn aliased_generic<T: Copy + PartialEq + Debug + RefUnwindSafe>(ctx: &Ctx, tname: &str, alpha: &[T], st: &mut CStats) {
+fn aliased_generic<T: Copy + PartialEq + Debug + RefUnwindSafe + Sync + Send>(ctx: &Ctx, tname: &str, alpha: &[T], st: &mut CStats) {
     let fns: Vec<(&'static str, fn(usize, usize) -> f64, Box<dyn Fn(&[T], &[T]) -> Res>)> = vec![
         ("jaccard::compute_probminhash_jaccard", exp_f64, Box::new(|a: &[T], b: &[T]| res_of(guarded(|| Ok::<f64, ()>(jaccard::compute_probminhash_jaccard(a, b)))))),
         ("jaccard::get_jaccard_index_estimate", exp_f64, Box::new(|a: &[T], b: &[T]| res_of(guarded(|| jaccard::get_jaccard_index_estimate(a, b))))),
@@ -254,7 +254,7 @@ fn aliased_generic<T: Copy + PartialEq + Debug + RefUnwindSafe>(ctx: &Ctx, tname
     check_aliased(ctx, tname, alpha, &fns, 4, st);
 }
 
-fn aliased_float<F: num::Float + Debug + Into<f64> + RefUnwindSafe>(ctx: &Ctx, tname: &str, alpha: &[F], exp: fn(usize, usize) -> f64, st: &mut CStats) {
+fn aliased_float<F: num::Float + Debug + Into<f64> + RefUnwindSafe + Sync + Send>(ctx: &Ctx, tname: &str, alpha: &[F], exp: fn(usize, usize) -> f64, st: &mut CStats) {
     let fns: Vec<(&'static str, fn(usize, usize) -> f64, Box<dyn Fn(&[F], &[F]) -> Res>)> = vec![
         ("superminhasher::compute_superminhash_jaccard", exp, Box::new(|a: &[F], b: &[F]| res_of(guarded(|| superminhasher::compute_superminhash_jaccard(a, b))))),
         ("superminhasher::get_jaccard_index_estimate", exp, Box::new(|a: &[F], b: &[F]| res_of(guarded(|| superminhasher::get_jaccard_index_estimate(a, b))))),
